@@ -8,7 +8,7 @@ use serde_json::{Value, json};
 
 pub static PROP: Prop = Prop {
     id: "C04",
-    rule: "Programs decoded from a proptest choice vector: a recursive skeleton (depth <= 5) of nested try / typed catches (String, Number, Foo) / mandatory untyped catch (yielding a value, rethrowing, or throwing a new value) / optional finally, around carriers {Koto function call, each / keep / fold callbacks driven by to_tuple, generator consumed through to_tuple, `@+` overload, `@display` reached from interpolation}, with one planted fault of 16 kinds (throw string / number / map with @type+@display, bad index, operator type mismatch, missing map key, failed assert, failed let type hint, unpack size mismatch, call of a non-callable, access on null, error inside string interpolation, inside a list / tuple / map literal under construction, inside call arguments) or no fault; every block prints a marker, a shared list is mutated before the fault and printed after each handler. Plus the complete grid fault kind x carrier x handler shape. Oracle: marker trace, result and Ok/Err class equal the reference interpreter M (innermost accepting handler, typed catches in order, finally exactly once and providing the value, state at the catch equals state at the throw); first line of an uncaught error equals the thrown message; VM stacks empty after the run (hook). Non-trivial: the fault fires under >= 1 enclosing try and crosses >= 1 frame boundary.",
+    rule: "Programs decoded from a proptest choice vector: a recursive skeleton (depth <= 5) of nested try / typed catches (String, Number, Foo) / mandatory untyped catch (yielding a value, rethrowing, or throwing a new value) / optional finally, around carriers {Koto function call, each / keep / fold callbacks driven by to_tuple, generator consumed through to_tuple, `@+` overload, `@display` reached from interpolation}, with one planted fault of 16 kinds (throw string / number / map with @type+@display, bad index, operator type mismatch, missing map key, failed assert, failed let type hint, unpack size mismatch, call of a non-callable, access on null, error inside string interpolation, inside a list / tuple / map literal under construction, inside call arguments) or no fault; every block prints a marker, a shared list is mutated before the fault and printed after each handler. Plus the complete grid fault kind x carrier x handler shape. Oracle: marker trace, result and Ok/Err class equal the reference interpreter M (innermost accepting handler, typed catches in order, finally exactly once and providing the value, state at the catch equals state at the throw); first line of an uncaught error equals the thrown message; VM stacks empty after the run (hook). A second, exhaustive stream treats a failed import as the fault: 5 failing imports (module that throws after exporting, failing @main, failing @test, import cycle, missing module) x 4 placements (in the try, in a called function, nested try that rethrows, in an iterator callback) x with / without finally; afterwards the printed state, later exports and Koto::exports() are exactly those of the importing script. Non-trivial: the fault fires under >= 1 enclosing try and crosses >= 1 frame boundary.",
     assumptions: &[
         "texts of caught runtime errors are never printed (only `type e`), thrown strings are compared",
         "known shapes excluded by construction and replayed as findings: F28 (finally skipped on return/break/continue/second throw), F30 (v = f() under try leaves pre-existing v null), C04-arity-catch, C04-builder-leak, C04-gen-typed",
@@ -444,7 +444,78 @@ fn case_json(prog: &[E]) -> Value {
     json!({"kind": "prog", "src": print_program(prog, &Layout::canonical()), "ast": serde_json::to_value(prog).unwrap()})
 }
 
+// ---------------------------------------------------------------------------------------------
+// a failed import is an error like any other: it unwinds to the enclosing try, and afterwards every
+// variable and the exports are as they were (module files of the C07 harness: a module that throws
+// at its top level after exporting, one with a failing @main, one with a failing @test, an import
+// cycle, a missing module)
+
+const FAILING_IMPORTS: [&str; 5] = ["import bad", "import bad_main", "import bad_test", "import cyc_a", "import no_such_module_c04"];
+const IMPORT_PLACEMENTS: [&str; 4] = ["top", "in-function", "nested-rethrow", "in-callback"];
+
+pub fn import_fail_source(import: usize, placement: usize, finally: bool) -> (String, String) {
+    let imp = FAILING_IMPORTS[import];
+    let fin = if finally { "finally\n  print 'fin'\n" } else { "" };
+    let body = match IMPORT_PLACEMENTS[placement] {
+        "top" => format!("r = try\n  {imp}\n  'no'\ncatch e\n  'caught'\n{fin}"),
+        "in-function" => format!("f = ||\n  {imp}\n  'no'\nr = try\n  [1, f()]\ncatch e\n  'caught'\n{fin}"),
+        "nested-rethrow" => format!("r = try\n  try\n    {imp}\n    'no'\n  catch e\n    print 'inner'\n    throw e\ncatch e2\n  'caught'\n{fin}"),
+        _ => format!("cb = |x|\n  {imp}\n  x\nr = try\n  (1, 2).each(cb).to_tuple()\ncatch e\n  'caught'\n{fin}"),
+    };
+    let src = format!("export before = 1\nkeep = [1, 2]\n{body}export after = 2\nsum = || before + after\nprint r, sum(), keep\n");
+    let mut expected = String::new();
+    if IMPORT_PLACEMENTS[placement] == "nested-rethrow" {
+        expected.push_str("inner\n");
+    }
+    if finally {
+        expected.push_str("fin\n");
+    }
+    // (a finally block provides the value of the try expression: `print` yields null)
+    expected.push_str(if finally { "(null, 3, [1, 2])\n" } else { "('caught', 3, [1, 2])\n" });
+    (src, expected)
+}
+
+fn eval_import_fail(import: usize, placement: usize, finally: bool, dir: &std::path::PathBuf) -> Eval {
+    let (src, expected) = import_fail_source(import, placement, finally);
+    let mut ev = Eval::pass(true).class("failed-import");
+    crate::props::c07::write_modules(dir);
+    let main = dir.join("main.koto");
+    let cap = kx::Capture::default();
+    let opts = RunOpts { script_path: Some(main.to_string_lossy().to_string()), ..Default::default() };
+    let mut settings = kx::settings(&cap, &opts);
+    settings.vm_settings.run_import_tests = true;
+    let mut koto = koto::Koto::with_settings(settings);
+    let outcome = kx::run_on(&mut koto, &src, &opts);
+    let stdout = cap.take();
+    let mut exports: Vec<String> = koto.exports().data().iter().map(|(k, _)| match k.value() { koto_runtime::KValue::Str(s) => s.to_string(), other => other.type_as_string().to_string() }).collect();
+    exports.sort();
+    if !outcome.is_ok() || stdout != expected || exports != ["after", "before"] {
+        ev.fail = Some(Fail::new(
+            "c04:failed-import",
+            format!("{} / {} / finally {finally}: outcome {outcome:?}\nstdout {stdout:?}, expected {expected:?}\nexports {exports:?}, expected [after, before]\n--- source:\n{src}", FAILING_IMPORTS[import], IMPORT_PLACEMENTS[placement]),
+        ));
+    }
+    ev
+}
+
 fn run_shard(ctx: &mut Ctx) {
+    {
+        let dir = std::path::PathBuf::from(format!("/verif/engine/run/c04-modules/{}-{}", std::process::id(), ctx.shard));
+        let mut k = 0u64;
+        for import in 0..FAILING_IMPORTS.len() {
+            for placement in 0..IMPORT_PLACEMENTS.len() {
+                for finally in [false, true] {
+                    k += 1;
+                    if !ctx.mine(k) {
+                        continue;
+                    }
+                    let case = json!({"kind": "import-fail", "import": import, "placement": placement, "finally": finally, "src": import_fail_source(import, placement, finally).0});
+                    ctx.run_case(&case, || eval_import_fail(import, placement, finally, &dir));
+                }
+            }
+        }
+        let _ = std::fs::remove_dir_all(&dir);
+    }
     // exhaustive grid: fault kind x forced first carrier is approximated by seeds per fault kind
     let per_fault = ctx.tier.pick(400u64, 4000u64);
     let mut idx = 0u64;
@@ -549,6 +620,12 @@ fn replay(case: &Value) -> Option<Fail> {
         "prog" => {
             let prog: Vec<E> = serde_json::from_value(case["ast"].clone()).ok()?;
             eval_prog(&prog, None).fail
+        }
+        "import-fail" => {
+            let dir = std::path::PathBuf::from(format!("/verif/engine/run/c04-modules/replay-{}", std::process::id()));
+            let r = eval_import_fail(case["import"].as_u64()? as usize, case["placement"].as_u64()? as usize, case["finally"].as_bool()?, &dir).fail;
+            let _ = std::fs::remove_dir_all(&dir);
+            r
         }
         "known-src" => {
             let out = kx::run(case["src"].as_str()?, &RunOpts::default());
